@@ -234,3 +234,86 @@ Theorem algD_terminates_partial :
     exists B : nat, forall F : nat, (B <= F)%nat -> algD F draw n0 N <> OutOfFuel.
 Proof. exact algD_terminates_partial_proof. Qed.
 Print Assumptions algD_terminates_partial.
+
+(* ------------------------------------------------------------------ sequencing: validators before kernels *)
+(* For the call skeletons extracted from /repo on this run (Gen/S_validators.v: COO.transpose, COO.reshape,
+   broadcast_to, tensordot, dot, COO getitem, COO.__init__): on every run that ends in a rejection — a
+   validator call that rejects or a `raise` statement — no kernel / constructor call has executed. *)
+Theorem rejection_precedes_kernels :
+  forall name p t, In (name, p) site_programs -> exec p t Raised -> no_kernel t.
+Proof. exact rejection_precedes_kernels_proof. Qed.
+Print Assumptions rejection_precedes_kernels.
+
+Theorem valid_args_no_internal_error :
+  forall m : vop, vop_np_accepts m = true -> model_verdict m = None \/ model_verdict m = Some None.
+Proof. exact valid_args_no_internal_error_proof. Qed.
+Print Assumptions valid_args_no_internal_error.
+
+Theorem invalid_args_clean_rejection :
+  forall m : vop, vop_np_accepts m = false ->
+    (forall s target, m = MBroadcastTo s target -> (length s <= length target)%nat) ->
+    exists e, model_verdict m = Some (Some e) /\ clean e = true.
+Proof. exact invalid_args_clean_rejection_proof. Qed.
+Print Assumptions invalid_args_clean_rejection.
+
+(* ------------------------------------------------------------------ GCXS product kernels and convert.py
+   (`for` loops only: they terminate by construction; the obligations are the unchecked accesses, above all
+   the writes into the output buffers pre-sized by the count kernels) *)
+Theorem csr_csr_count_nnz_safe :
+  forall (a_indices a_indptr b_indices b_indptr : list Z) (n_row n_col K : Z),
+    0 <= n_row -> 0 <= n_col -> zlen a_indptr = n_row + 1 -> Forall (fun j => 0 <= j < K) a_indices ->
+    zlen b_indptr = K + 1 -> Forall (fun k => 0 <= k < n_col) b_indices ->
+    exists c, csr_csr_count_nnz a_indices a_indptr b_indices b_indptr n_row n_col = Done c /\ 0 <= c.
+Proof. exact csr_csr_count_nnz_safe_proof. Qed.
+Print Assumptions csr_csr_count_nnz_safe.
+
+Theorem dot_csr_csr_safe :
+  forall (a_indices a_data a_indptr b_indices b_data b_indptr : list Z) (n_row n_col K : Z),
+    0 <= n_row -> 0 <= n_col -> zlen a_indptr = n_row + 1 -> Forall (fun j => 0 <= j < K) a_indices ->
+    zlen a_data = zlen a_indices -> zlen b_indptr = K + 1 -> Forall (fun k => 0 <= k < n_col) b_indices ->
+    zlen b_data = zlen b_indices ->
+    exists r, dot_csr_csr a_indices a_data a_indptr b_indices b_data b_indptr n_row n_col = Done r.
+Proof. exact dot_csr_csr_safe_proof. Qed.
+Print Assumptions dot_csr_csr_safe.
+
+Theorem csc_ndarray_count_nnz_safe :
+  forall (a_indices a_data a_indptr : list Z) (b : list (list Z)) (a_rows bK bC : Z),
+    0 <= a_rows -> 0 <= bC -> zlen a_indptr = bK + 1 ->
+    Forall (fun p => 0 <= p <= zlen a_indices) a_indptr -> Forall (fun k => 0 <= k < a_rows) a_indices ->
+    zlen a_data = zlen a_indices -> mat_ok bK bC b ->
+    forall indptr, zlen indptr = bC + 1 ->
+    exists ip c, csc_ndarray_count_nnz a_indices a_indptr b a_rows bK bC indptr = Done (ip, c) /\ 0 <= c /\ zlen ip = bC + 1.
+Proof. exact csc_ndarray_count_nnz_safe_proof. Qed.
+Print Assumptions csc_ndarray_count_nnz_safe.
+
+Theorem dot_csc_ndarray_sparse_safe :
+  forall (a_indices a_data a_indptr : list Z) (b : list (list Z)) (a_rows bK bC : Z),
+    0 <= a_rows -> 0 <= bC -> zlen a_indptr = bK + 1 ->
+    Forall (fun p => 0 <= p <= zlen a_indices) a_indptr -> Forall (fun k => 0 <= k < a_rows) a_indices ->
+    zlen a_data = zlen a_indices -> mat_ok bK bC b ->
+    exists r, dot_csc_ndarray_sparse a_indices a_data a_indptr b a_rows bK bC = Done r.
+Proof. exact dot_csc_ndarray_sparse_safe_proof. Qed.
+Print Assumptions dot_csc_ndarray_sparse_safe.
+
+Theorem uncompress_dimension_safe :
+  forall indptr, indptr <> [] -> 0 <= znth indptr (zlen indptr - 1) ->
+  exists r, uncompress_dimension indptr = Done r.
+Proof. exact uncompress_dimension_safe_proof. Qed.
+Print Assumptions uncompress_dimension_safe.
+
+Theorem unravel_index_safe :
+  forall (F : nat) (n : Z) (shape : list Z),
+    shape <> [] -> Forall (fun d => 0 < d) (skipn 1 shape) -> zlen shape <= Z.of_nat F ->
+    exists o, unravel_index F n shape = Done o /\ zlen o = zlen shape.
+Proof. exact unravel_index_safe_proof. Qed.
+Print Assumptions unravel_index_safe.
+
+Theorem linearize_safe :
+  forall (F : nat) (x_indices shape order rshape cshape : list Z),
+    shape <> [] -> Forall (fun d => 0 < d) (skipn 1 shape) ->
+    order <> [] -> Forall (fun k => 0 <= k < zlen shape) order ->
+    zlen cshape = 2 -> Forall (fun d => 0 < d) (skipn 1 cshape) ->
+    Z.of_nat F = Z.max 2 (zlen shape) ->
+    exists r, linearize F x_indices shape order rshape cshape = Done r.
+Proof. exact linearize_safe_proof. Qed.
+Print Assumptions linearize_safe.
